@@ -1206,3 +1206,73 @@ func nodeText(n ast.Node) string {
 	}
 	return fmt.Sprintf("%T", n)
 }
+
+// R02h: every state the renderer builds for a template gets the same fields as the entry state
+// (registry, writer, injected data, message bundle, ...): a callee must see what the entry template sees.
+func ruleR02h(c *Ctx) {
+	p := c.pkg("soyhtml")
+	if p == nil {
+		return
+	}
+	info := p.TypesInfo
+	stObj := p.Types.Scope().Lookup("state")
+	if stObj == nil {
+		return
+	}
+	type lit struct {
+		fd     *ast.FuncDecl
+		cl     *ast.CompositeLit
+		fields map[string]bool
+	}
+	var lits []lit
+	for _, fd := range c.allFuncDecls("soyhtml") {
+		ast.Inspect(fd.Body, func(x ast.Node) bool {
+			cl, ok := x.(*ast.CompositeLit)
+			if !ok {
+				return true
+			}
+			tv, ok := info.Types[cl]
+			if !ok || !types.Identical(tv.Type, stObj.Type()) {
+				return true
+			}
+			l := lit{fd, cl, map[string]bool{}}
+			for _, el := range cl.Elts {
+				if kv, ok := el.(*ast.KeyValueExpr); ok {
+					if id, ok := kv.Key.(*ast.Ident); ok {
+						l.fields[id.Name] = true
+					}
+				}
+			}
+			lits = append(lits, l)
+			return true
+		})
+	}
+	// reference: the literal of the exported entry that sets a template (Execute)
+	var ref *lit
+	for i := range lits {
+		if lits[i].fd.Name.IsExported() && lits[i].fields["tmpl"] {
+			ref = &lits[i]
+		}
+	}
+	if ref == nil {
+		c.fatalf("anchor: the entry's state literal (exported function, sets tmpl) not found")
+		return
+	}
+	n := 0
+	for _, l := range lits {
+		if !l.fields["tmpl"] || l.cl == ref.cl {
+			continue // states without a template (EvalExpr) run no template
+		}
+		n++
+		var missing []string
+		for f := range ref.fields {
+			if !l.fields[f] {
+				missing = append(missing, f)
+			}
+		}
+		key := c.declKey("soyhtml", l.fd) + " state-literal fields"
+		c.check(len(missing) == 0, "R02h", key, l.cl.Pos(), "sets every field the entry state sets",
+			"the state built for a called template leaves out "+strings.Join(sortedStrings(missing), ", ")+", which the entry state sets: the callee renders without it (e.g. without the translation bundle or the injected data) although the entry template has it")
+	}
+	c.floor("R02h", "template states other than the entry's", 1, n)
+}
